@@ -380,7 +380,17 @@ pub fn run_download(cx: &mut Ctx, d: &Download, sess: &mut Session, check_releas
         if resp.header.get_token_length() as usize != resp.get_token().len() {
             problems.push(("C12", format!("reply header says token length {} but the token has {} bytes", resp.header.get_token_length(), resp.get_token().len())));
         }
-        let wire_len = resp.to_bytes_unlimited().map(|b| b.len()).unwrap_or(usize::MAX);
+        let wire = resp.to_bytes_unlimited();
+        let wire_len = wire.as_ref().map(|b| b.len()).unwrap_or(usize::MAX);
+        // the client sees the block through the wire: what it decodes must be what the handler built
+        match wire.as_ref().ok().map(|b| Packet::from_bytes(b)) {
+            Some(Ok(q)) => {
+                if q.get_token() != &cur_tok[..] || q.header.message_id != mid || q.payload != resp.payload || other_opts(&q, &[]) != other_opts(&resp, &[]) {
+                    problems.push(("C08", format!("the block as the client decodes it from the wire ({}) differs from the reply the handler built ({})", dump(&q), dump(&resp))));
+                }
+            }
+            _ => problems.push(("C08", "the handler's reply does not encode / decode".into())),
+        }
         let blk = first_opt(&resp, 23).and_then(|b| parse_bv(&b));
         if in_c10_range && wire_len > d.m {
             problems.push(("C10", format!("message of {} bytes exceeds the budget {}", wire_len, d.m)));
